@@ -5,9 +5,11 @@ import (
 	"encoding/json"
 	"errors"
 	"fmt"
+	"io/fs"
 	"math"
 	"sort"
 	"strings"
+	"syscall"
 	"time"
 
 	"go.miragespace.co/specter/kv/memory"
@@ -30,8 +32,16 @@ func init() {
 //	E slot empty (nil value)                  Z slot empty (zero-length, non-nil value)
 //	X Get fails (generic error)               T Get fails (context.DeadlineExceeded)
 //	U value present but not a TunnelRoute
-const c28Quick = "LRQEXU"
-const c28Thorough = "LRQNEZXTU"
+//	P Get fails with &fs.PathError{Op:"open",Path:"x",Err:syscall.ENOENT}   (errors.Is(err, fs.ErrNotExist) holds)
+//	W Get fails with fmt.Errorf("kv: %w", fs.ErrNotExist)                    (wraps the loader's internal empty-slot marker)
+//	C Get fails with an error wrapping context.Canceled
+//	D Get fails with an error wrapping context.DeadlineExceeded
+//
+// A failed lookup is an errored slot whatever its chain contains. The value fs.ErrNotExist itself
+// (== os.ErrNotExist) is not injected as a Get error: it is identical to the marker the loader
+// produces for an empty value, so no code could tell them apart, and no KV adapter returns it.
+const c28Quick = "LRQEXUPWC"
+const c28Thorough = "LRQNEZXTUPWCD"
 
 type c28Case struct {
 	Slots   string `json:"slots"`
@@ -121,6 +131,20 @@ func c28Eval(f *fixture, cs c28Case) c28Result {
 		case 'T':
 			nErr++
 			over[key] = func() ([]byte, error) { return nil, context.DeadlineExceeded }
+		case 'P':
+			nErr++
+			over[key] = func() ([]byte, error) {
+				return nil, &fs.PathError{Op: "open", Path: "x", Err: syscall.ENOENT}
+			}
+		case 'W':
+			nErr++
+			over[key] = func() ([]byte, error) { return nil, fmt.Errorf("kv: %w", fs.ErrNotExist) }
+		case 'C':
+			nErr++
+			over[key] = func() ([]byte, error) { return nil, fmt.Errorf("rpc: %w", context.Canceled) }
+		case 'D':
+			nErr++
+			over[key] = func() ([]byte, error) { return nil, fmt.Errorf("rpc: %w", context.DeadlineExceeded) }
 		case 'U':
 			nErr++
 			// field 1 (length-delimited) announcing 100 bytes, truncated: not a TunnelRoute
@@ -268,7 +292,7 @@ func c28(c *report.Check) {
 	c.Set("samples", dist.Samples)
 	c.Set("exhaustive", true)
 	c.Assume("Get failures and empty-but-non-nil values are injected in a wrapper in front of the real memory KV; everything else is the real store",
-		"'errored' slot = Get error or undecodable value; a mixed empty/error triple with no decodable route falls under 'otherwise' of the statement (empty route list); its TTL is only recorded (observation_*), not judged")
+		"'errored' slot = Get error (whatever its chain contains: plain, wrapping fs.ErrNotExist / ENOENT, wrapping context errors) or undecodable value; the bare value fs.ErrNotExist is not injected because it is identical to the loader's own empty-slot marker; a mixed empty/error triple with no decodable route falls under 'otherwise' of the statement (empty route list); its TTL is only recorded (observation_*), not judged")
 }
 
 func sortedSyms(s string) string {
